@@ -1,3 +1,4 @@
+import Mp.SprintStruct
 import Mp.EscProofs
 import Mp.EscBridge
 import Mp.RoundTrip
@@ -25,3 +26,6 @@ import Mp.RoundTripGo
 #print axioms Mp.go_paren
 #print axioms Mp.go_mark
 #print axioms Mp.parse_sprint_keyPath_go
+#print axioms Mp.sprint_erPath
+#print axioms Mp.sprint_of_same_structure
+#print axioms Mp.sprintLogic_of_same_structure
